@@ -167,6 +167,16 @@ def FOLD(pres, op):
     return TEXT(r)
 
 
+def FOLDV(pres, op):
+    # the folded VALUE (a Pregex, or '' for no operands)
+    if len(pres) == 0:
+        return ''
+    r = TP(pres[0])
+    for p in pres[1:]:
+        r = METHOD(r, op, p)
+    return r
+
+
 def FOLD_EXC(pres, op):
     # name of the exception the left fold through method `op` raises first ('' if none)
     if BADPRE(pres[0]):
@@ -178,3 +188,41 @@ def FOLD_EXC(pres, op):
             return e
         r = METHOD(r, op, p)
     return ''
+
+
+# ---- meta patterns ------------------------------------------------------------------------------------------------
+
+def DATE_FORMATS():
+    # the 48 documented formats: orders D-M-Y, M-D-Y, Y-M-D; D in {dd, d}; M in {mm, m}; Y in {yyyy, yy}; separators - and /
+    out = []
+    for d in ('dd', 'd'):
+        for m in ('mm', 'm'):
+            for y in ('yyyy', 'yy'):
+                for order in ((d, m, y), (m, d, y), (y, m, d)):
+                    for sep in ('-', '/'):
+                        out.append(sep.join(order))
+    return out
+
+
+def ALLDOC(formats):
+    # every selected format is a documented one (None selects all; a string selects one)
+    if NONE(formats):
+        return True
+    if STRV(formats):
+        return formats in DATE_FORMATS()
+    for f in formats:
+        if not (f in DATE_FORMATS()):
+            return False
+    return True
+
+
+def ALLSTR(x):
+    # a string, or a list of strings
+    if STRV(x):
+        return True
+    if not LISTV(x):
+        return False
+    for s in x:
+        if not STRV(s):
+            return False
+    return True
